@@ -10,8 +10,9 @@ git -C /repo worktree add --detach $R HEAD >/dev/null 2>&1 || { echo "worktree f
 ( cd $R && git apply "$PATCH" ) || { echo "patch does not apply"; git -C /repo worktree remove --force $R; exit 2; }
 # uncommitted verif hook files of /repo's working tree (other workers' in-progress `//go:build verif` files):
 # without them a suite that already calls the hook does not build against the scratch worktree
-( cd /repo && git ls-files --others --exclude-standard -z | while IFS= read -r -d '' f; do
-    case "$f" in *.go) head -5 "$f" | grep -q '^//go:build verif' && { mkdir -p "$R/$(dirname "$f")"; [ -e "$R/$f" ] || cp "$f" "$R/$f"; } ;; esac
+( cd /repo && { git ls-files --others --exclude-standard -z; git ls-files -m -z; } | while IFS= read -r -d '' f; do
+    # untracked hook files are added; MODIFIED tracked hook files (a worker extending a hook) replace the HEAD version
+    case "$f" in *.go) [ -f "$f" ] && head -5 "$f" | grep -q '^//go:build verif' && { mkdir -p "$R/$(dirname "$f")"; cp "$f" "$R/$f"; } ;; esac
   done )
 rsync -a --exclude .git --exclude replays --exclude work /verif/ $V/
 sed -i "s|=> /repo|=> $R|" $V/harness/go.mod
